@@ -311,6 +311,22 @@ class VBuiltin(V):
         self.name, self.bound = name, bound
 
 
+class VExt(V):
+    """opaque value produced by a declared external (cryptography, pyasn1, ...): an uninterpreted term
+    name(args); semantics only through hooks keyed ('ext:<name>', attr)"""
+    def __init__(self, name, args=(), kws=None):
+        self.name, self.args, self.kws = name, tuple(args), dict(kws or {})
+
+    def __repr__(self):
+        return 'VExt(%s/%d)' % (self.name, len(self.args))
+
+
+EXTERNAL_ROOTS = {'padding', 'ec', 'hashes', 'default_backend', 'PKCS7', 'aes_key_wrap', 'aes_key_unwrap', 'ConcatKDFHash', 'modes',
+                  'algorithms', 'Cipher', 'x25519', 'rsa', 'ed25519', 'dsa', 'serialization', 'constant_time', 'openssl', 'encoder', 'decoder',
+                  'Sequence', 'ObjectIdentifier', 'Integer', 'NamedTypes', 'NamedType', 'zlib', 'bz2', 'base64', 'calendar', 'datetime',
+                  'timezone', 'codecs', 'imghdr', 'utils', 'x448', 'ed448'}
+
+
 class VHash(V):
     def __init__(self, alg, ref):
         self.alg, self.ref = alg, ref
@@ -558,6 +574,8 @@ class Exec:
             return z3.BoolVal(len(self.items(v, st)) > 0)
         if isinstance(v, VDict):
             return z3.BoolVal(len(v.pairs) > 0)
+        if isinstance(v, VExt):
+            return z3.BoolVal(True)
         if isinstance(v, VObj):
             lk = self.repo.lookup(v.cls, '__bool__')
             if lk:
@@ -571,6 +589,30 @@ class Exec:
         if isinstance(v, VBuf):
             return st.heap[v.cell]
         raise ToolLimit('not bytes: %r' % type(v).__name__)
+
+    def conc_bytes(self, v, st):
+        """concrete bytes of a literal-valued bytes value, else None"""
+        if isinstance(v, VStr) and isinstance(v.s, str):
+            return v.s.encode('latin-1', 'replace')
+        if not isinstance(v, (VBytes, VBuf)):
+            return None
+        z = z3.simplify(self.seq(v, st))
+        out = []
+
+        def walk(t):
+            k = t.decl().kind()
+            if k == z3.Z3_OP_SEQ_EMPTY:
+                return True
+            if k == z3.Z3_OP_SEQ_UNIT:
+                c = t.children()[0]
+                if not z3.is_int_value(c):
+                    return False
+                out.append(c.as_long())
+                return True
+            if k == z3.Z3_OP_SEQ_CONCAT:
+                return all(walk(c) for c in t.children())
+            return False
+        return bytes(out) if walk(z) else None
 
     def new_buf(self, st, z):
         cell = 'cell!%d' % next(_fresh)
@@ -610,6 +652,8 @@ class Exec:
             return ['set', 'object']
         if isinstance(v, VNone):
             return ['NoneType', 'object']
+        if isinstance(v, VExt):
+            return [v.name.split('.')[-1], 'object']
         return ['object']
 
     def bl(self, st, x):
@@ -854,6 +898,10 @@ class Exec:
             return z3.BoolVal(False)
         if isinstance(l, VBuiltin):
             return z3.BoolVal(l.name == r.name and l.bound is r.bound)
+        if isinstance(l, VExt):
+            if l is r:
+                return z3.BoolVal(True)
+            raise ToolLimit('comparison of opaque external values')
         if isinstance(l, VClass):
             return z3.BoolVal(l.qual == r.qual)
         raise ToolLimit('eq %s %s' % (type(l).__name__, type(r).__name__))
@@ -1113,6 +1161,11 @@ class Exec:
                 return self.call_func(VFunc(lk[2], None, cls=lk[1], self_val=o, mod=self.repo.classes[lk[1]].module), [], {}, st, ctx)
             if lk and lk[0] == 'method':
                 return [(st, VFunc(lk[2], None, cls=lk[1], self_val=o, mod=self.repo.classes[lk[1]].module))]
+        if isinstance(o, VExt):
+            hk = self.hooks.get(('ext:' + o.name, attr))
+            if hk is not None and not getattr(hk, 'is_method', True):
+                return hk(self, st, o, [])
+            return [(st, VBuiltin('extmethod', bound=(o, attr)))]
         if isinstance(o, VHash) and attr == 'digest_size':
             return [(st, VInt(hashlib.new(o.alg).digest_size))]
         if isinstance(o, (VInt, VBytes, VBuf, VStr, VHash, VList, VDict)):
@@ -1499,10 +1552,23 @@ class Exec:
             if name == 'collections.namedtuple':
                 fields = [x.s for x in self.items(A[1], st)]
                 return [(st, VBuiltin('namedtuple', bound=('nt', A[0].s, tuple(fields))))]
+            if name in ('re.subn', 're.sub'):
+                pat, rep = self.conc_bytes(A[0], st), self.conc_bytes(A[1], st)
+                if pat is None or rep is None:
+                    raise ToolLimit('re.subn with non-literal pattern')
+                subj = A[2]
+                if isinstance(subj, VStr):
+                    raise ToolLimit('re.subn on str')
+                fn = z3.Function('RE_SUBN[%s -> %s]' % (pat.hex(), rep.hex()), BYTES, BYTES)
+                t = fn(self.seq(subj, st))
+                st.ghost.setdefault('regex', []).append((pat, rep, self.seq(subj, st), t))
+                return [(st, VTuple([VBytes(t), VInt(fresh('nsub'))]) if name == 're.subn' else VBytes(t))]
             if name.split('.')[0] in ('warnings', 'logging') or name in ('print',):
                 return [(st, VNone())]
-            if name.startswith('hashes.'):
-                return [(st, VStr(s=('opaque', name)))]
+            if name == 'hashes.Hash':
+                ref = 'hash!%d' % next(_fresh)
+                st.heap[ref] = z3.Empty(BYTES)
+                return [(st, VHash(('param', A[0]), ref))]
             if name == 'range':
                 lo, hi = (VInt(0), A[0]) if len(A) == 1 else (A[0], A[1])
                 return [(st, VRange(lo, hi))]
@@ -1562,11 +1628,22 @@ class Exec:
                 return [(st, VTuple(self.iter_items(A[0], st)))]
             if name == 'set':
                 return [(st, VSet(self.iter_items(A[0], st) if A else []))]
+            if name.split('.')[0] in EXTERNAL_ROOTS:
+                hk = self.hooks.get(('ext', name))
+                if hk is not None:
+                    return hk(self, st, None, A, kws) if getattr(hk, 'wants_kws', False) else hk(self, st, None, A)
+                return [(st, VExt(name, A, kws))]
             raise ToolLimit('builtin %s' % name)
         # bound methods
         if name == 'hook':
             hk, o = b
             return hk(self, st, o, A)
+        if name == 'extmethod':
+            vext, attr = b
+            hk = self.hooks.get(('ext:' + vext.name, attr))
+            if hk is not None:
+                return hk(self, st, vext, A)
+            return [(st, VExt(vext.name + '.' + attr, (vext,) + tuple(A), kws))]
         if name == 'namedtuple' and isinstance(b, tuple) and b[0] == 'nt':
             o = VObj('namedtuple:' + b[1], 'nt!%d' % next(_fresh))
             for fname, v in zip(b[2], A):
@@ -1633,6 +1710,11 @@ class Exec:
             if name == 'update':
                 st.heap[b.ref] = z3.Concat(st.heap[b.ref], self.seq(A[0], st))
                 return [(st, VNone())]
+            if name in ('digest', 'finalize') and isinstance(b.alg, tuple):
+                algid = z3.IntVal(int(hashlib.sha256(repr(b.alg[1]).encode()).hexdigest()[:6], 16))
+                t = HFN(algid, st.heap[b.ref])
+                st.ghost.setdefault('hashed', []).append((b.alg, st.heap[b.ref], t))
+                return [(st, VBytes(t))]
             if name == 'digest':
                 algid = z3.IntVal(int(hashlib.sha256(b.alg.encode()).hexdigest()[:6], 16))
                 t = HFN(algid, st.heap[b.ref])
